@@ -56,6 +56,7 @@ func c15(r *core.Report) {
 	c15Pool(r)
 	c15CacheKey(r)
 	c15Publish(r, scope)
+	c15PublishOnce(r, scope)
 }
 
 // globalRoot: the package-level variable an address or container value is rooted at (through field,
@@ -1041,6 +1042,73 @@ func c15CacheKey(r *core.Report) {
 // c15Publish: an object handed to other goroutines through a package-level map is complete when it
 // is stored there. A field assigned after the store is written while readers that found the entry
 // already use it (and outside whatever lock guarded the store).
+// c15PublishOnce: objects that are compared by identity are published once. Two goroutines that
+// both miss a cache and both publish what they built leave two objects for one key in circulation:
+// whoever holds the first and later looks the key up gets the second, and an identity comparison
+// between them (the generator's cycle detection compares type infos by pointer) fails.
+func c15PublishOnce(r *core.Report, scope []*ssa.Function) {
+	p := r.Prog
+	r.RunRule("C15.publishonce", "first publication wins: every store of a pointer into a package-level map in the concurrently used code stands on the miss edge of a comma-ok lookup of the same map made after the write lock was taken (lookup and store in one critical section) — a store that relies on a lookup made under an earlier read lock lets two goroutines publish two objects for the same key", 1, func() {
+		perFn := map[string]int{}
+		for _, fn := range scope {
+			for _, b := range fn.Blocks {
+				for _, in := range b.Instrs {
+					mu, ok := in.(*ssa.MapUpdate)
+					if !ok {
+						continue
+					}
+					g, ok := globalRoot(mu.Map, 0)
+					if !ok || g == nil {
+						continue
+					}
+					if _, isPtr := mu.Value.Type().Underlying().(*types.Pointer); !isPtr {
+						continue
+					}
+					name := shortFn(fn)
+					perFn[name]++
+					key := fmt.Sprintf("publishonce:%s/%s#%d", name, g.Name(), perFn[name])
+					good := false
+					for _, b2 := range fn.Blocks {
+						locked := false
+						for _, in2 := range b2.Instrs {
+							if c, isCall := in2.(ssa.CallInstruction); isCall {
+								if sc := c.Common().StaticCallee(); sc != nil && sc.Pkg != nil && sc.Pkg.Pkg.Path() == "sync" {
+									switch sc.Name() {
+									case "Lock":
+										locked = true
+									case "Unlock", "RUnlock", "RLock":
+										locked = false
+									}
+								}
+							}
+							lk, isLk := in2.(*ssa.Lookup)
+							if !isLk || !lk.CommaOk || !locked {
+								continue
+							}
+							if g2, ok := globalRoot(lk.X, 0); !ok || g2 != g {
+								continue
+							}
+							if lk.Referrers() == nil {
+								continue
+							}
+							for _, ref := range *lk.Referrers() {
+								if ex, isEx := ref.(*ssa.Extract); isEx && ex.Index == 1 && boolEdgeDominates(ex, false, b) {
+									good = true
+								}
+							}
+						}
+					}
+					if good {
+						r.OK(key, p.Pos(mu.Pos()), "stored on the miss edge of a lookup made under the write lock")
+					} else {
+						r.Bad(key, p.Pos(mu.Pos()), fmt.Sprintf("the object is stored into the package-level map %s without looking the key up again under the write lock: two goroutines that both missed the earlier lookup each publish their own object, the second replacing the first — callers that compare the objects by identity (the schema generator's cycle detection) then get a different result than the same call run alone", g.Name()))
+					}
+				}
+			}
+		}
+	})
+}
+
 func c15Publish(r *core.Report, scope []*ssa.Function) {
 	p := r.Prog
 	r.RunRule("C15.publish", "publish after construction: for every store of a pointer into a package-level map in the concurrently used code, no field of the pointed-to object is assigned on a path that continues from the store (the object is built first, then published)", 1, func() {
